@@ -124,7 +124,15 @@ fn run_case(idx: usize, line: &str, dir: &str, stage_bin: &str, out: &mut Out) {
     repoint(2, &errpath, true);
     let fds_before = count_fds();
     let mk = |i: usize| -> Exec {
-        let e = if stages[i] == "nosuch" { Exec::cmd("/nonexistent/verif-no-such-program") } else { Exec::cmd(stage_bin).arg("stage").arg(stages[i]) };
+        let e = if stages[i] == "nosuch" {
+            Exec::cmd("/nonexistent/verif-no-such-program")
+        } else if stages[i] == "W" {
+            // a writer that is not a Rust program (those ignore SIGPIPE themselves): a shell loop that keeps echoing for
+            // 4 s whatever happens to its writes -- it ends at once only if SIGPIPE has its default disposition
+            Exec::cmd("/bin/sh").arg("-c").arg("end=$(( $(date +%s) + 4 )); while [ $(date +%s) -lt $end ]; do i=0; while [ $i -lt 3000 ]; do echo yyyyyyyyyyyyyyyyyyyyyyyyyyyyyyyy; i=$((i+1)); done; done 2>/dev/null")
+        } else {
+            Exec::cmd(stage_bin).arg("stage").arg(stages[i])
+        };
         if det.get(i).cloned().unwrap_or(false) {
             e.detached()
         } else {
